@@ -75,7 +75,7 @@ def gen_type(r, depth=0, rich=True):
 
 INTS = [0, 1, -1, 5, -17, 100, 7, 42, -2]
 FLOATS = [0.0, 0.5, -1.5, 1e-07, 3.0, 100.25, 1e20, 2.5e-05, -0.001]
-STRS = ["mnist", "~/data", "x", "a b", "word", "two words", "under_score", "UPPER", "8080", "1.0", "-3", "True"]
+STRS = ["mnist", "~/data", "x", "a b", "word", "two words", "under_score", "UPPER", "8080", "1.0", "-3", "True", ",", "r"]
 CODES = ["```np.zeros(3)```", "```(1, 2)```", "```[1, 2]```", "```{'a': 1}```", "```foo(1)```", "```x```", "```list(range(3)).copy()```", "```x[0].y```"]
 
 
@@ -131,7 +131,7 @@ def gen_param(r, rich=True, p_typ=0.85, p_doc=0.85):
 
 
 F_TYPS = ["int", "str", "float", "bool", "Optional[int]", "Optional[str]", "Optional[bool]", "List[str]", "List[int]",
-          "Literal['alpha', 'beta']", "Union[int, float]", "np.ndarray", None]  # fmt: skip
+          "Literal['alpha', 'beta']", "Literal['read only', 'read write']", "Union[int, float]", "np.ndarray", None]  # fmt: skip
 F_DOCS = ["plain", None, "comma", "optional-prefix", "two-sentences"]
 F_DEFS = ["absent", "none", "zero", "nonzero", "code"]
 F_SIZE = len(F_TYPS) * len(F_DOCS) * len(F_DEFS) * 3
@@ -178,11 +178,12 @@ def focus_ir(r, p_typ=0.85, p_doc=0.85, returns=True):
         elif b == "bool":
             f["default"] = not z
         elif b == "str":
-            f["default"] = "" if z else r.choice(["mnist", "a b", "8080"])
+            f["default"] = "" if z else r.choice(["mnist", "a b", "8080", "x", ","])  # (one character: a length boundary)
         elif typ is None:
             f["default"] = r.choice([0, False, 0.0]) if z else r.choice([3, True, 0.25, "word"])
         elif typ.startswith("Literal["):
-            f["default"] = "beta" if z else "alpha"
+            members = ast.literal_eval(typ[len("Literal") :])
+            f["default"] = members[1] if z else members[0]
         elif typ == "List[int]":
             f["default"] = "```[]```" if z else "```[1, 2]```"
         elif typ == "Union[int, float]":
